@@ -29,10 +29,39 @@ func (i *interpreter) splitDivConst(a, b *smt.Term) (q, r *smt.Term, ok bool) {
 	if !ok {
 		return nil, nil, false
 	}
-	// truncated division (Go) equals floor division for a >= 0, i.e. q >= 0
-	if res, _ := i.check(i.ctx.Slt(q, i.ctx.BV(0, 64)), false); res != smt.Unsat {
+	// truncated division (Go) equals floor division unless a < 0 and the remainder is non-zero
+	c := i.ctx
+	if res, _ := i.check(c.Slt(q, c.BV(0, 64)), false); res != smt.Unsat {
+		adj := c.And(c.Slt(q, c.BV(0, 64)), c.Not(c.Eq(r, c.BV(0, 64))))
+		q = c.Ite(adj, c.Add(q, c.BV(1, 64)), q)
+		r = c.Ite(adj, c.Sub(r, b), r)
+	}
+	// q*C, if the program forms it, is a - r (no multiplication for the solver)
+	if i.mulBack == nil {
+		i.mulBack = map[divKey]*smt.Term{}
+	}
+	i.mulBack[divKey{q.ID, C}] = c.Sub(a, r)
+	return q, r, true
+}
+
+// smallSplit: a is proved to lie in [-5C, 5C): quotient and remainder by case split.
+func (i *interpreter) smallSplit(a *smt.Term, C uint64) (q, r *smt.Term, ok bool) {
+	c := i.ctx
+	const k = 5
+	lo := c.BV(uint64(-int64(k*C)), 64)
+	hi := c.BV(k*C, 64)
+	res, _ := i.check(c.Not(c.And(c.Sle(lo, a), c.Slt(a, hi))), false)
+	if res != smt.Unsat {
 		return nil, nil, false
 	}
+	q = c.BV(k-1, 64)
+	r = c.Sub(a, c.BV((k-1)*C, 64))
+	for j := int64(k) - 2; j >= -k; j-- {
+		below := c.Slt(a, c.BV(uint64((j+1)*int64(C)), 64))
+		q = c.Ite(below, c.BV(uint64(j), 64), q)
+		r = c.Ite(below, c.Sub(a, c.BV(uint64(j*int64(C)), 64)), r)
+	}
+	i.res.Stubs["division of a value proved to lie in [-5C, 5C) by a large constant C done by case split on the quotient"] = true
 	return q, r, true
 }
 
@@ -94,6 +123,9 @@ func (i *interpreter) floorSplit1(a *smt.Term, C uint64, allowFresh bool, depth 
 	}
 	if !allowFresh {
 		return nil, nil, false
+	}
+	if q, r, ok = i.smallSplit(a, C); ok {
+		return
 	}
 	// general form: fresh quotient / remainder
 	lim := c.BV(uint64(1)<<62, 64)
